@@ -184,6 +184,13 @@ def main(argv=None):
         path = save_replay(prop, seed, final)
         # verify the replay in a fresh process before reporting
         res = fork_run(entry["fn"], dict(base_spec, run=final.get("run", 0), replay=final))
+        for attempt in (2, 4):
+            # a verification that ran out of wall time on a loaded machine says nothing about the replay: repeat it
+            if res.get("verdict") not in ("wall_timeout", "harness_error"):
+                break
+            print("  verification of the replay gave %s (%s), repeating" % (res.get("verdict"), (res.get("detail") or "")[-200:]))
+            from .runner import WALL_TIMEOUT
+            res = fork_run(entry["fn"], dict(base_spec, run=final.get("run", 0), replay=final), wall_timeout=WALL_TIMEOUT * attempt)
         ok = (res.get("verdict") == "violation" and res.get("signature") == final["expect"]["signature"]
               and res.get("digest") == final["expect"]["digest"])
         if not ok:
@@ -194,8 +201,8 @@ def main(argv=None):
                 final = replay
                 ok = True
         if not ok:
-            print("HARNESS-ERROR violation %s did not replay (run %s); original kept at %s" % (
-                v.get("signature"), replay.get("run"), orig_path))
+            print("HARNESS-ERROR violation %s did not replay (run %s): got %s / %s; original kept at %s" % (
+                v.get("signature"), replay.get("run"), res.get("verdict"), res.get("signature"), orig_path))
             rc = max(rc, 2)
             continue
         print("violation: %s" % final["expect"]["signature"])
